@@ -49,8 +49,10 @@ C04_QUICK = C04_QUICK + [_h(f"c04f::c04f_check{d}__{t}", bound="float type: coun
                          for t in FLOAT_TYPES for d in (2, 3)]
 C04_THOROUGH = C04_QUICK + [_h(f"c04::c04_check{d}__{t}", bound=f"degree {d} (generic clauses: count, sign, magnitude bound, hard limiting)", timeout=2400)
                             for t in I8_TYPES for d in (4, 5, 6, 8)]
-C18_QUICK = ([_h(f"c18::c18_print_parse__{n}", mem_gb=4) for n in NAMES] + [_h(f"c18::c18_clap__{n}", mem_gb=3) for n in NAMES]
-             + [_h(f"c18::c18_type__{n}", mem_gb=4) for n in NAMES] + [_h("c18::c18_reject_nonmembers_fromstr", timeout=1800, mem_gb=8)])
+C18_QUICK = ([_h("c18::c18_reject_nonmembers_fromstr", timeout=850, mem_gb=6)]
+             + [_h(f"c18::c18_type__{n}", mem_gb=2.5, timeout=800) for n in NAMES]
+             + [_h(f"c18::c18_print_parse__{n}", mem_gb=2.5, timeout=800) for n in NAMES]
+             + [_h(f"c18::c18_clap__{n}", mem_gb=2, timeout=800) for n in NAMES])
 C15_IL_QUICK = ["2x3", "4x2"]
 C15_IL_ALL = ["1x1", "1x3", "2x2", "2x3", "3x2", "3x3", "2x4", "4x2", "3x1", "5x1", "1x9", "9x1"]
 C15_QUICK = ([_h(f"c15::c15_interleave_{s}", timeout=1500, mem_gb=8, bound=f"shape columns x rows = {s}") for s in C15_IL_QUICK]
@@ -80,13 +82,12 @@ C10_KANI_QUICK = [_h(f"c01::{h}", timeout=3000, mem_gb=5, bound=_HIST_BOUND) for
 C10_KANI_THOROUGH = C10_SCRATCH_THOROUGH + C10_SCRATCH8 + [_h(f"c01::c10_h1_{p}__{n}", timeout=5400, mem_gb=(16 if n.startswith("HL") else 6), cap_gb=40, bound=_HIST_BOUND)
                                    for n in MSA_FL + MSA_HL for p in ["1_0", "1_1"]]
 _C03_B = "BOUNDED: checker-supplied exact integer min-sum arithmetic, integer LLRs in [-7,7], fixed matrix, limit <= "
-C03_KANI = [_h("c03::c03_flooding_h1_l1", timeout=2400, mem_gb=6, bound=_C03_B + "1 (2x3)"),
-            _h("c03::c03_layered_h1", timeout=2400, mem_gb=6, bound=_C03_B + "2 (2x3)"),
-            _h("c03::c03_layered_h2_l1", timeout=2400, mem_gb=6, bound=_C03_B + "1 (3x4)"),
-            _h("c03::c03_flooding_h1u_l1", timeout=2400, mem_gb=6, bound=_C03_B + "1 (2x3 with unsorted adjacency lists)"),
-            _h("c03::c03_layered_h1u", timeout=2400, mem_gb=6, bound=_C03_B + "2 (2x3 with unsorted adjacency lists)")]
+C03_KANI = [_h("c03::c03_flooding_h1_one", timeout=800, mem_gb=5, bound="BOUNDED: checker-supplied exact min-sum arithmetic, integer LLRs in [-3,3], 2x3 matrix with unsorted adjacency lists, limit = 1"),
+            _h("c03::c03_layered_h1", timeout=800, mem_gb=5, bound=_C03_B + "2 (2x3)"),
+            _h("c03::c03_layered_h1u", timeout=800, mem_gb=5, bound=_C03_B + "2 (2x3 with unsorted adjacency lists)")]
 C03_KANI_THOROUGH = [_h(f"c03::{h}", timeout=7200, mem_gb=8, bound=_C03_B + "2")
-                     for h in ["c03_flooding_h1", "c03_layered_h1", "c03_layered_h2", "c03_flooding_h1u_l1", "c03_layered_h1u"]]
+                     for h in ["c03_flooding_h1_one", "c03_flooding_h1", "c03_layered_h1", "c03_layered_h2", "c03_flooding_h1u_l1", "c03_layered_h1u",
+                               "c03_flooding_h1_l1", "c03_layered_h2_l1"]]
 # c03_flooding_h2 (3x4 matrix, limit 2) did not finish in 50 min: not registered
 C17_KANI = [_h(f"c17::{n}", mem_gb=5, timeout=1500,
                bound="BOUNDED stand-in: one concrete scenario on a fixed 2x3 or 3x2 matrix; never counted as proved")
